@@ -1,13 +1,13 @@
 /-
-Invariant of the stream write-path model (`Model/WsStream.lean`): the concatenation of all frames ever queued, in
+Invariant of the stream write-path model (`Model/WsWritePath.lean`): the concatenation of all frames ever queued, in
 submission order, equals the bytes the transport has accepted so far, followed by the unwritten rest of the frame
 in flight, followed by the frames still pending. Hence the wire is always a prefix of the submitted frames in order,
 each frame complete before the next one starts.
 -/
-import Sonic.Model.WsStream
+import Sonic.Model.WsWritePath
 import Sonic.Lemmas.WsDecode
 
-namespace Sonic.Model.WsStream
+namespace Sonic.Model.WsWritePath
 open Sonic.Model.WsBuf Sonic.Model.WsFrame
 
 /-- The unwritten rest of the frame in flight. -/
@@ -294,4 +294,4 @@ theorem submit_inv {s : WS} (o : Out) (async : Bool) (id : Nat) (fr : List UInt8
         obtain ⟨_, _, _, a4, _, _, a7, _⟩ := flushSync_spec hfs
         exact ⟨hi2, a4, a7, (fun _ => ⟨hq2, rfl⟩), fun hc => by cases hc⟩
 
-end Sonic.Model.WsStream
+end Sonic.Model.WsWritePath
